@@ -3,13 +3,14 @@ package main
 import (
 	"fmt"
 	"go/token"
+	"strings"
 
 	"golang.org/x/tools/go/ssa"
 )
 
 func init() {
 	register(&propDef{ID: "C05", Run: runC05,
-		Explain: "Structural necessary conditions of 'unpinned requests rotate evenly over the backends registered right now', decided on SSA/CFG and must-hold locksets of /repo: (1) lockset: every access to RoundRobinBackend.index, .backends and .backendMap outside the constructor holds the pool mutex, and the mutating/selecting functions take it once at entry and release it only by defer (one critical section per operation); (2) paired-update: AddBackend appends one element, registers it under GetAddress() and notifies HandleBackendAdded(backend, pool), each exactly once on every path; RemoveBackend, when the address is registered, deletes exactly the list element whose GetAddress() equals the argument (delete-one under that equality only), deletes the map entry, closes that element and notifies HandleBackendRemoved, each exactly once, and does nothing otherwise; nobody else writes the three fields; (3) cursor: the only non-constructor store to index is (index + 1) % len(backends) with that length read in the same critical section and guarded > 0, and the advanced value is what getNextBackendIndex returns and what Send passes to the first getBackend; (4) selection: getBackend returns backends[i % n] with n = len(backends) of the same critical section, guarded n > 0; (5) empty: with no backend both helpers return an error and Send returns an error without calling any backend.",
+		Explain: "Structural necessary conditions of 'unpinned requests rotate evenly over the backends registered right now', decided on SSA/CFG and must-hold locksets of /repo: (1) lockset: every access to RoundRobinBackend.index, .backends and .backendMap outside the constructor holds the pool mutex, and the mutating/selecting functions take it once at entry and release it only by defer (one critical section per operation); (2) paired-update: AddBackend appends one element, registers it under GetAddress() and notifies HandleBackendAdded(backend, pool), each exactly once on every path; RemoveBackend, when the address is registered, deletes exactly the list element whose GetAddress() equals the argument (delete-one under that equality only), deletes the map entry, closes that element and notifies HandleBackendRemoved, each exactly once, and does nothing otherwise; nobody else writes the three fields; (3) cursor: the only non-constructor store to index is (index + 1) % len(backends) with that length read in the same critical section and guarded > 0, and the advanced value is what getNextBackendIndex returns and what Send passes to the first getBackend; (4) selection: getBackend returns backends[i % n] with n = len(backends) of the same critical section, guarded n > 0; (5) empty: with no backend both helpers return an error and Send returns an error without calling any backend; (6) rotation-stable: outside AddBackend/RemoveBackend nothing may write into the backing array of the rotation (no sort/copy/in-place append on a view of it); (7) owned-socket: every connection a backend's Close() closes was created for that backend alone (fresh net.Dial*/Listen* result kept nowhere else).",
 		NotDecided: "the counts floor(N/k)/ceil(N/k) themselves (they follow arithmetically from 3-4 between membership changes); the window between choosing a backend and writing to it while it is being removed."})
 }
 
@@ -21,6 +22,91 @@ func runC05(c *Ctx) {
 	c05Cursor(c)
 	c05Selection(c)
 	c05Empty(c)
+	c05Stable(c)
+	c05OwnedSocket(c)
+}
+
+// c05Stable: between membership changes nobody reorders or overwrites the rotation: only AddBackend/RemoveBackend
+// (and the constructor) may write into the backing array of RoundRobinBackend.backends.
+func c05Stable(c *Ctx) {
+	w := c.w
+	rule := "rotation-stable"
+	mutators := map[string]bool{"(*RoundRobinBackend).AddBackend": true, "(*RoundRobinBackend).RemoveBackend": true, "NewRoundRobinBackend": true}
+	n := 0
+	for _, fn := range w.All {
+		if mutators[w.fname(fn)] {
+			continue
+		}
+		hasLoad := false
+		eachInstr(fn, func(in ssa.Instruction) {
+			if u, ok := in.(*ssa.UnOp); ok && u.Op == token.MUL {
+				if fa, ok := u.X.(*ssa.FieldAddr); ok && fieldRef(fa) == "RoundRobinBackend.backends" {
+					hasLoad = true
+				}
+			}
+		})
+		if !hasLoad {
+			continue
+		}
+		n++
+		c.Fns[w.fname(fn)] = true
+		ws := w.backingWrites(fn, "RoundRobinBackend.backends")
+		if len(ws) == 0 {
+			c.ok(rule, w.fname(fn), w.pos(fn.Pos()), "reads the rotation without writing into its backing array")
+			continue
+		}
+		c.bad(rule, w.fname(fn), w.ipos(ws[0]), w.fname(fn)+" may write into the backing array of the live rotation (a view of rb.backends is sorted, copied into, or appended to in place): the order of the backends changes between two dispatches without a membership change, so k consecutive dispatches no longer reach each backend once")
+	}
+	if n < 4 {
+		c.undecided(rule, "floor", "-", fmt.Sprintf("only %d readers of the rotation found (expected >= 4)", n))
+	}
+}
+
+// c05OwnedSocket: a backend closes only what it owns. Every connection a Backend implementation closes in Close()
+// is created for that backend alone (a fresh net.Dial*/net.Listen* result that is kept nowhere else), so removing one
+// backend cannot take the socket of the backends still in the rotation.
+func c05OwnedSocket(c *Ctx) {
+	w := c.w
+	rule := "owned-socket"
+	n := 0
+	for _, typ := range []string{"UDPBackend", "TCPBackend"} {
+		cl := c.fn(rule, "(*"+typ+").Close")
+		if cl == nil {
+			continue
+		}
+		closed := map[string]bool{}
+		for _, cs := range w.callsIn(cl) {
+			if !strings.HasSuffix(cs.Name, ".Close") && !strings.HasSuffix(cs.Name, ").Close") {
+				continue
+			}
+			recv := strip(callArg(cs.In, -1))
+			for {
+				// promoted method of an embedded library struct: (*net.conn).Close(&udpConn.conn)
+				if fa, ok := recv.(*ssa.FieldAddr); ok && !w.isMainType(fa.X.Type()) {
+					recv = strip(fa.X)
+					continue
+				}
+				break
+			}
+			if ref, base := loadedField(recv); ref != "" && isParam(cl, base, 0) {
+				closed[ref] = true
+			}
+		}
+		for _, ref := range sortedKeys(closed) {
+			for _, fn := range w.All {
+				for _, st := range w.fieldStores(fn, ref) {
+					n++
+					c.Fns[w.fname(fn)] = true
+					ok, why := w.freshSocket(st.Val, 0)
+					c.check(ok, rule, fmt.Sprintf("%s/%s#%d", ref, w.fname(fn), n), w.ipos(st), "the connection closed by Close() is created for this backend alone",
+						"the connection stored in "+ref+" is not created for this backend alone ("+why+"), but "+typ+".Close closes it: removing this backend breaks every other backend using the same connection")
+				}
+			}
+		}
+	}
+	if n < 4 {
+		c.undecided(rule, "floor", "-", fmt.Sprintf("only %d stores of backend connections found (expected >= 4)", n))
+	}
 }
 
 func c05Lockset(c *Ctx) {
